@@ -32,8 +32,13 @@ def uf_compress(F, state, blk, nwords):
     r = F(_cat(state, 32), _cat(blk, 8)); top = 32 * nwords - 1
     return [simp(z3.Extract(top - 32 * i, top - 31 - 32 * i, r)) for i in range(nwords)]
 
+def _norm(xs):
+    """z3 numerals count as concrete"""
+    return [x.as_long() if (is_sym(x) and z3.is_bv_value(x)) else x for x in xs]
+
 def sha256_compress(state, blk):
     """state: 8 words, blk: 64 bytes (ints or terms)"""
+    state = _norm(state); blk = _norm(blk)
     if not any(is_sym(x) for x in list(state) + list(blk)): return _compress_concrete(state, blk)
     return uf_compress(SHA256C, state, blk, 8)
 
@@ -94,9 +99,11 @@ def _sha1_compress_concrete(state, block):
         e, d, c, b, a = d, c, rotl(b, 30), a, t
     return [(x + y) & 0xffffffff for x, y in zip(state, [a, b, c, d, e])]
 def rmd160_compress(state, blk):
+    state = _norm(state); blk = _norm(blk)
     if not any(is_sym(x) for x in list(state) + list(blk)): return _rmd_compress_concrete(state, blk)
     return uf_compress(RMD160C, state, blk, 5)
 def sha1_compress(state, blk):
+    state = _norm(state); blk = _norm(blk)
     if not any(is_sym(x) for x in list(state) + list(blk)): return _sha1_compress_concrete(state, blk)
     return uf_compress(SHA1C, state, blk, 5)
 def ripemd160(data):
